@@ -31,21 +31,21 @@ theorem gen_isInit (d : Bytes) (off : Nat) :
 theorem gen_tokenAccountValid (d : Bytes) :
     token_Account_valid_account_data d = .ok (tokenAccountValid d) := by
   simp only [token_Account_valid_account_data, token_is_initialized_account, tokenAccountValid, isInitializedAccount,
-    gen_isInit, RX.eq, RX.len_eq, RX.lit_eq, RX.cmp_ok, RX.and_ok, RX.or_ok]
+    gen_isInit, RX.eq, RX.len_eq, RX.lit_eq, RX.cmp_ok, RX.and_ok, RX.or_ok, RX.ifB_ok, RX.bindN_ok]
   cases h1 : (d.length == SPL_TOKEN_ACCOUNT_LENGTH) <;>
     cases h2 : isInitializedTokenData d SPL_TOKEN_ACCOUNT_STATE_OFFSET <;> simp_all
 
 theorem gen_tokenMintValid (d : Bytes) :
     token_Mint_valid_account_data d = .ok (tokenMintValid d) := by
   simp only [token_Mint_valid_account_data, token_is_initialized_mint, tokenMintValid, isInitializedMint,
-    gen_isInit, RX.eq, RX.len_eq, RX.lit_eq, RX.cmp_ok, RX.and_ok, RX.or_ok]
+    gen_isInit, RX.eq, RX.len_eq, RX.lit_eq, RX.cmp_ok, RX.and_ok, RX.or_ok, RX.ifB_ok, RX.bindN_ok]
   cases h1 : (d.length == SPL_TOKEN_MINT_LENGTH) <;>
     cases h2 : isInitializedTokenData d SPL_TOKEN_MINT_IS_INITIALIZED_OFFSET <;> simp_all
 
 theorem gen_t22AccountValid (d : Bytes) :
     token_2022_Account_valid_account_data d = t22AccountValid d := by
   simp only [token_2022_Account_valid_account_data, t22AccountValid, gen_tokenAccountValid, token_is_initialized_account,
-    gen_isInit, RX.or_ok, RX.and_ok, RX.gt, RX.ne, RX.eq, RX.cmp_ok, RX.len_eq, RX.lit_eq, RX.index_ok, Token.index, isInitializedAccount]
+    gen_isInit, RX.or_ok, RX.and_ok, RX.ifB_ok, RX.bindN_ok, RX.gt, RX.ne, RX.eq, RX.cmp_ok, RX.len_eq, RX.lit_eq, RX.index_ok, Token.index, isInitializedAccount]
   cases hv : tokenAccountValid d <;>
     cases h1 : decide (d.length > SPL_TOKEN_ACCOUNT_LENGTH) <;>
     cases h2 : (d.length != SPL_TOKEN_MULTISIG_LENGTH) <;>
@@ -57,7 +57,7 @@ theorem gen_t22AccountValid (d : Bytes) :
 theorem gen_t22MintValid (d : Bytes) :
     token_2022_Mint_valid_account_data d = t22MintValid d := by
   simp only [token_2022_Mint_valid_account_data, t22MintValid, gen_tokenMintValid, token_is_initialized_mint,
-    gen_isInit, RX.or_ok, RX.and_ok, RX.gt, RX.ne, RX.eq, RX.cmp_ok, RX.len_eq, RX.lit_eq, RX.index_ok, Token.index, isInitializedMint]
+    gen_isInit, RX.or_ok, RX.and_ok, RX.ifB_ok, RX.bindN_ok, RX.gt, RX.ne, RX.eq, RX.cmp_ok, RX.len_eq, RX.lit_eq, RX.index_ok, Token.index, isInitializedMint]
   cases hv : tokenMintValid d <;>
     cases h1 : decide (d.length > SPL_TOKEN_ACCOUNT_LENGTH) <;>
     cases h2 : (d.length != SPL_TOKEN_MULTISIG_LENGTH) <;>
